@@ -11,6 +11,7 @@ PROFILE = {
     "timeouts": [60, 600],
     "p_human": 0.25,
     "p_ice": 0.3,
+    "euclidean_default_speed": 0.5,
 }
 
 
@@ -49,8 +50,8 @@ main = simple_main(
     build_cases,
     "c16_step_twice",
     {
-        "quick": {"c16_states_retained": 8000, "c16_rechecks": 10000, "c16_step_twice": 1500, "c16_apply_twice": 1500, "c16_what_if_branches": 1000, "c16_earlier_states_stepped_again": 1000, "c16_replays_of_several_steps": 200},
-        "thorough": {"c16_states_retained": 200000, "c16_rechecks": 250000, "c16_step_twice": 40000, "c16_apply_twice": 40000, "c16_what_if_branches": 25000, "c16_earlier_states_stepped_again": 25000, "c16_replays_of_several_steps": 5000},
+        "quick": {"c16_states_retained": 8000, "c16_rechecks": 10000, "c16_step_twice": 1500, "c16_apply_twice": 1500, "c16_what_if_branches": 1000, "c16_earlier_states_stepped_again": 1000, "c16_replays_of_several_steps": 200, "c16_states_of_the_previous_simulation_checked_again": 20},
+        "thorough": {"c16_states_retained": 200000, "c16_rechecks": 250000, "c16_step_twice": 40000, "c16_apply_twice": 40000, "c16_what_if_branches": 25000, "c16_earlier_states_stepped_again": 25000, "c16_replays_of_several_steps": 5000, "c16_states_of_the_previous_simulation_checked_again": 300},
     },
     "every state of every run is retained together with its deep fingerprint (NamedTuples, dataclasses, Maps, frozensets, tuples, enums down to scalars, instance ids included); a random subset is re-fingerprinted every 20 steps and all "
     "of them at the end. Every 5th state is stepped twice through the real StepSimulation.update (built-in and state-deterministic hostile control) and the step's instruction batch is applied twice through the real apply_instructions; "
